@@ -99,6 +99,32 @@ func jobC08m(c *rt.Ctx) {
 			return map[string]interface{}{"input": ref.Hex(bb), "output": ref.Hex(contract(&x))}
 		}, contract(&x))
 	}
+	// constructed remainders: q*L + r for remainders r = rho mod L (preResults: rho with limbs - in EITHER layout - each 0, 1
+	// or all ones), under several quotients, as 64-byte and 32-byte strings (one transcript entry per r)
+	c.Require("expand-remainder")
+	rems := preResults()
+	q64 := []*big.Int{big.NewInt(1), big.NewInt(3), big.NewInt(15), badd(pow2(128), 1), badd(pow2(250), 12345), badd(pow2(259), -1)}
+	for _, r := range rems {
+		if !c.Take() {
+			continue
+		}
+		h := sha256.New()
+		for qi, q := range q64 {
+			x := new(big.Int).Mul(q, L)
+			x.Add(x, r)
+			var y Bignum256
+			Expand(&y, ref.ToLE(x, 64))
+			h.Write(contract(&y))
+			if qi < 3 && x.BitLen() <= 256 {
+				Expand(&y, ref.ToLE(x, 32))
+				h.Write(contract(&y))
+			}
+		}
+		rr := r
+		emit("expand-remainder", func() map[string]interface{} {
+			return map[string]interface{}{"remainder": rr.String(), "quotients": len(q64)}
+		}, h.Sum(nil))
+	}
 	// Add / Mul on all ordered pairs of the boundary alphabet
 	As := alphaAsFixed()
 	lim := make([]Bignum256, len(As))
@@ -193,6 +219,52 @@ func alphaAsFixed() []*big.Int {
 					}
 					add(x)
 				}
+			}
+		}
+	}
+	return out
+}
+
+// preResults: remainders r = rho mod L for structured values rho in [0, 3L): the value the reduction
+// holds BEFORE its final conditional subtractions is r, r + L or r + 2L depending on the quotient
+// estimate, so rho - not only r - ranges over the limb-class values of both layouts (each lower limb 0,
+// 1 or all ones; the top limb around 0, L's top limb and twice that).
+func preResults() []*big.Int {
+	var out []*big.Int
+	seen := map[string]bool{}
+	for _, lay := range []struct {
+		bits  uint
+		limbs int
+		vals  []uint64
+		top   uint
+	}{{56, 5, []uint64{0, 1, 1<<56 - 1}, 28}, {30, 9, []uint64{0, 1<<30 - 1}, 12}} {
+		t := uint64(1) << lay.top
+		tops := []uint64{0, 1, t - 1, t, t + 1, 2*t - 1, 2 * t, 2*t + 1, 3*t - 1}
+		idx := make([]int, lay.limbs-1)
+		for {
+			for _, tv := range tops {
+				x := new(big.Int).SetUint64(tv)
+				for i := lay.limbs - 2; i >= 0; i-- {
+					x.Lsh(x, lay.bits)
+					x.Add(x, new(big.Int).SetUint64(lay.vals[idx[i]]))
+				}
+				x.Mod(x, ref.L)
+				if !seen[x.String()] {
+					seen[x.String()] = true
+					out = append(out, x)
+				}
+			}
+			k := 0
+			for k < len(idx) {
+				idx[k]++
+				if idx[k] < len(lay.vals) {
+					break
+				}
+				idx[k] = 0
+				k++
+			}
+			if k == len(idx) {
+				break
 			}
 		}
 	}
